@@ -7,6 +7,6 @@ DIR=$1; shift
 PROPS="$@"; [ -z "$PROPS" ] && PROPS="C01 C02 C03 C04 C05 C06 C07 C08 C09 C10 C11 C12 C13 C14 C15 C16 C17 C18 C19"
 for d in $DIR/n*/; do
   n=$(basename $d)
-  out=$(printf '%s\n' $PROPS | xargs -P 8 -I{} sh -c "./bin/rvet check {} --no-emit --patch $d/patch.diff 2>&1 | grep -E '^FINDING|does not apply' | cut -c1-260 | sort -u")
+  out=$(printf '%s\n' $PROPS | xargs -P 8 -I{} sh -c "${RVET:-./bin/rvet} check {} --no-emit --patch $d/patch.diff 2>&1 | grep -E '^FINDING|does not apply' | cut -c1-260 | sort -u")
   if [ -z "$out" ]; then echo "$n: silent"; else echo "$n: FALSE ALARM"; echo "$out" | sed 's/^/    /'; fi
 done
